@@ -44,7 +44,14 @@ fn retries() -> Vec<RetryPolicy> {
 /// canonical description of the result: sorted cells as sorted coordinate-bit tuples, or the error class
 fn result_digest<K: Kernel<D, Scalar = f64>, const D: usize>(verts: &[Vertex<f64, i32, D>], o: ConstructionOptions) -> String {
     match guarded(|| DelaunayTriangulation::<K, i32, (), D>::with_topology_guarantee_and_options(&K::default(), verts, TopologyGuarantee::PLManifold, o)) {
-        Ok(Ok(dt)) => format!("Ok:{:x}", digest(&format!("{:?}", snap_of(&dt).cell_coord_sets()))),
+        Ok(Ok(dt)) => {
+            let s = snap_of(&dt);
+            // cells as coordinate tuples + the surviving (coordinates, data) multiset: which input survives a dedup /
+            // duplicate skip is part of "the same cells from the same vertex values"
+            let mut surv: Vec<(Vec<u64>, String)> = s.verts.iter().map(|v| (v.c.iter().map(|x| x.to_bits()).collect(), v.data.clone())).collect();
+            surv.sort();
+            format!("Ok:{:x}", digest(&format!("{:?}|{:?}", s.cell_coord_sets(), surv)))
+        }
         Ok(Err(e)) => format!("Err:{}", vcore::dtx::variant_name(&e)),
         Err(_) => "panic".into(),
     }
@@ -59,9 +66,10 @@ fn check_input<K: Kernel<D, Scalar = f64> + Send + 'static, const D: usize>(rep:
     let refdt = if gp { Some(reference_delaunay(pts)) } else { None };
     let perms: Vec<Vec<usize>> = if all_perms { permutations(pts.len()).into_iter().map(|(p, _)| p).collect() } else { permutations(pts.len()).into_iter().step_by(17).map(|(p, _)| p).collect() };
     let replay = |extra: Value| json!({"D": D, "kernel": kname, "family": family, "points": pts.iter().map(|p| p.to_vec()).collect::<Vec<_>>(), "detail": extra});
-    for order in orders() {
-        for dedup in dedups() {
-            for retry in retries() {
+    let combos: Vec<(InsertionOrderStrategy, DedupPolicy, RetryPolicy)> = orders().into_iter().flat_map(|o| dedups().into_iter().flat_map(move |d| retries().into_iter().map(move |r| (o, d, r)))).collect();
+    combos.par_iter().for_each(|&(order, dedup, retry)| {
+        {
+            {
                 let o = opts(order, dedup, retry);
                 let label = format!("{order:?}/{dedup:?}/{retry:?}");
                 let base = det_vertices(pts);
@@ -74,7 +82,7 @@ fn check_input<K: Kernel<D, Scalar = f64> + Send + 'static, const D: usize>(rep:
                 let d2 = std::thread::spawn(move || result_digest::<K, D>(&b2, o)).join().unwrap_or_else(|_| "thread-panic".into());
                 if d0 != d1 || d0 != d2 {
                     rep.violation(Finding { signature: json!({"check": "not_repeatable", "where": if d0 != d1 { "same thread" } else { "fresh thread" }, "D": D}), description: format!("{label}: building twice from the same vertex values gives different results ({d0} / {d1} / {d2})"), replay: replay(json!({"options": label})) });
-                    continue;
+                    return;
                 }
                 // (c) random UUIDs (vertex! macro) must not change the cells
                 if matches!(retry, RetryPolicy::Disabled) {
@@ -113,7 +121,7 @@ fn check_input<K: Kernel<D, Scalar = f64> + Send + 'static, const D: usize>(rep:
                 }
             }
         }
-    }
+    });
     // (f) batch vs incremental in general position
     if let Some(r) = &refdt {
         let mut d: DtI<K, D> = DelaunayTriangulation::with_empty_kernel(K::default());
@@ -240,6 +248,9 @@ fn child_digests() -> Vec<String> {
 
 fn main() {
     let args = parse_args();
+    if let Some(p) = &args.replay {
+        std::process::exit(vcore::replay::generic(p));
+    }
     silence_panics();
     if args.extra.iter().any(|a| a == "--child") {
         for d in child_digests() {
@@ -252,12 +263,21 @@ fn main() {
     let x = usize::from(thorough);
     let cn = Cn { builds: AtomicU64::new(0), comparisons: AtomicU64::new(0), perm_groups: AtomicU64::new(0), gp_equal: AtomicU64::new(0), schedules: AtomicU64::new(0), child_inputs: AtomicU64::new(0) };
     let mut bounds = Vec::new();
-    run_family::<2>(&rep, &cn, "general position", &gp_points::<2>(8), 4..=5 + x, if thorough { 1 } else { 3 }, true, &mut bounds);
-    run_family::<2>(&rep, &cn, "G2(3) subsets", &alpha::grid::<2>(3), 4..=5, if thorough { 1 } else { 5 }, true, &mut bounds);
+    run_family::<2>(&rep, &cn, "general position", &gp_points::<2>(8), 4..=5 + x, if thorough { 1 } else { 5 }, true, &mut bounds);
+    run_family::<2>(&rep, &cn, "G2(3) subsets", &alpha::grid::<2>(3), 4..=5, if thorough { 1 } else { 9 }, true, &mut bounds);
     run_family::<3>(&rep, &cn, "general position", &gp_points::<3>(7), 5..=5 + x, if thorough { 1 } else { 3 }, true, &mut bounds);
     run_family::<3>(&rep, &cn, "cube3 subsets", &alpha::grid::<3>(2), 5..=5, if thorough { 2 } else { 9 }, true, &mut bounds);
     run_family::<4>(&rep, &cn, "general position", &gp_points::<4>(7), 6..=6, if thorough { 1 } else { 2 }, thorough, &mut bounds);
     run_family::<5>(&rep, &cn, "general position", &gp_points::<5>(8), 7..=7, if thorough { 1 } else { 3 }, false, &mut bounds);
+    // tight clusters inside a wide cloud: several distinct points share one Hilbert / Morton quantisation cell,
+    // so the curve index ties and only the documented coordinate tie-break keeps the order input-independent
+    let wide2: Vec<[f64; 2]> = vec![[0.0, 0.0], [1.0, 0.0], [0.0, 1.0], [1.0, 1.0], [0.5, 0.25], [1e10, 0.0], [-1e10, 3e9], [2e9, -1e10]];
+    run_family::<2>(&rep, &cn, "tight cluster in wide cloud", &wide2, 6..=6 + x, if thorough { 1 } else { 3 }, true, &mut bounds);
+    let wide3: Vec<[f64; 3]> = vec![[0.0, 0.0, 0.0], [1.0, 0.0, 0.0], [0.0, 1.0, 0.0], [0.0, 0.0, 1.0], [1.0, 1.0, 1.0], [1e10, 0.0, 0.0], [-1e10, 3e9, 1e9]];
+    run_family::<3>(&rep, &cn, "tight cluster in wide cloud", &wide3, 6..=6 + x, if thorough { 1 } else { 2 }, true, &mut bounds);
+    // near-duplicate pairs below the duplicate tolerance: which one survives must not depend on the listing order
+    let nd2: Vec<[f64; 2]> = vec![[0.0, 0.0], [4.0, 0.0], [0.0, 4.0], [4.0, 4.0], [1.0, 2.0], [1.0 + 3e-11, 2.0], [3.0, 1.0]];
+    run_family::<2>(&rep, &cn, "near-duplicate pair", &nd2, 6..=6 + x, if thorough { 1 } else { 2 }, true, &mut bounds);
     schedules(&rep, &cn);
     // cross-process: a child process of this very binary must report the same digests
     let here = child_digests();
